@@ -641,6 +641,10 @@ class PDA:
                                            s_to,
                                            stack_to)
         for node in graph.nodes:
+            if "is_final" in graph.nodes[node]:
+                # A state, even if no transition uses it
+                # pylint: disable=protected-access
+                pda.states.add(pda._pda_obj_creator.to_state(node))
             if graph.nodes[node].get("is_start", False):
                 pda.set_start_state(node)
             if graph.nodes[node].get("is_final", False):
